@@ -407,6 +407,39 @@ def _clear_repo_caches():
                 f.cache_clear()
             except Exception:
                 pass
+    _restore_module_state()
+
+
+_MODULE_STATE = {}  # (module name, attribute) -> (container, snapshot of its content at first sight)
+
+
+def _restore_module_state():
+    """plain module-level dicts / lists / sets of the library (hand-made memo tables, lazily filled lookup tables) are put back to the content
+    they had when first seen, so that no path sees what another path left there; registries and other objects are left alone"""
+    import sys
+    for name, mod in list(sys.modules.items()):
+        if not name.startswith('gym_gridverse') or mod is None:
+            continue
+        for attr, v in list(vars(mod).items()):
+            if type(v) not in (dict, list, set) or attr.startswith('__'):
+                continue
+            key = (name, attr)
+            known = _MODULE_STATE.get(key)
+            if known is None or known[0] is not v:
+                _MODULE_STATE[key] = (v, v.copy())
+                continue
+            snap = known[1]
+            # (identity comparisons only: the containers may hold proxies left by a path, which must not be asked anything here)
+            if type(v) is dict:
+                same = len(v) == len(snap) and all(k1 is k2 and a is b for (k1, a), (k2, b) in zip(v.items(), snap.items()))
+            elif type(v) is list:
+                same = len(v) == len(snap) and all(a is b for a, b in zip(v, snap))
+            else:
+                ids = {id(e) for e in snap}
+                same = len(v) == len(snap) and all(id(e) in ids for e in v)
+            if not same:
+                v.clear()
+                (v.extend if type(v) is list else v.update)(snap)
 
 
 from . import symx as _symx  # noqa: E402
